@@ -35,7 +35,7 @@ ASSUMPTIONS = [
     "a task over its projection is re-executed up to 4 more times and the smallest peak kept (sporadic spikes of the traced peak are not reproducible excesses)",
     "an under-projection smaller than the slack of that operation/geometry is invisible; the evidence reports the maximum observed ratio per operation and compressor",
 ]
-NSHARDS = {"quick": 16, "thorough": 32}
+NSHARDS = {"quick": 16, "thorough": 16}
 
 
 # ---------------------------------------------------------------------------------------------
@@ -299,8 +299,8 @@ def finalize(tier, merged):
     return {
         "rule": RULE,
         "floors": [
-            ("tasks measured", c.get("tasks_measured", 0), 2000 if tier == "quick" else 9000),
-            ("tasks whose projection is dominated by data (>= 1 chunk above reserved_mem)", c.get("data_dominated_tasks", 0), 1200 if tier == "quick" else 6000),
+            ("tasks measured", c.get("tasks_measured", 0), 2000 if tier == "quick" else 4500),
+            ("tasks whose projection is dominated by data (>= 1 chunk above reserved_mem)", c.get("data_dominated_tasks", 0), 1200 if tier == "quick" else 3000),
             ("distinct programs exercised", len(merged["hist"].get("ops", {})), 30),
         ],
         "coverage_extra": {"max_ratio_peak_over_projected_by_program": ratios},
